@@ -43,13 +43,15 @@ def level_seqs(m):
     return list(itertools.combinations_with_replacement(('outer', 'app', 'route'), m))
 
 
-def valid_types(levels, types):
-    # no duplicate unique type inside one list
-    for lv in set(levels):
-        ts = [t for l, t in zip(levels, types) if l == lv and TYPES[t][0]]
-        if len(ts) != len(set(ts)):
-            return False
-    return True
+def valid_types(levels, types, embedded=None):
+    """No duplicate unique type inside the *serving* application's own list (there the suite pins that all are
+    kept; outside the merge rule).  Inner lists - route-level, and an embedded application's list - may repeat a
+    unique type: merging keeps it once, at its outermost position."""
+    if embedded is None:
+        embedded = 'outer' in levels
+    serving = 'outer' if embedded else 'app'
+    ts = [t for l, t in zip(levels, types) if l == serving and TYPES[t][0]]
+    return len(ts) == len(set(ts))
 
 
 def share_instances(cfg):
@@ -120,7 +122,7 @@ def gen_structure(m):
     full = (True, True, True)
     for levels in level_seqs(m):
         for types in itertools.product(sorted(TYPES), repeat=m):
-            if not valid_types(levels, types):
+            if not valid_types(levels, types, 'outer' in levels or m % 2 == 1):
                 continue
             for ep_kind in EP_KINDS:
                 cfg = base_cfg(levels, types, [full] * m, ep_kind, True, 'outer' in levels or m % 2 == 1)
